@@ -49,6 +49,8 @@ type Exec struct {
 	assignNodes       map[*types.Var][]ast.Node // non-defining assignments to each local
 	closesChans       []Term // channels the goroutine under proof may close without owning them (closes=)
 	inputChans        []Term // the channels declared as inputs of the goroutine under proof
+	unknownSeen       map[string]bool   // names of the contract that resolved to nothing (seen by invariant inference)
+	rename            map[string]string // contract name -> program name (repair of a renamed local)
 	extraInv          map[ast.Node][]Clause // engine-derived invariants of counting loops
 	selectRecv        bool   // the next chanRecv is an arm of a select (not a blocking receive)
 	scratch           string // directory for synchronous solver queries (invariant inference)
